@@ -327,14 +327,14 @@ func c11ParseStack(s string) (*c11Node, error) {
 // ---------- a running chain ----------
 
 type c11Run struct {
-	w      *c11World
-	taps   bool
-	fresh  bool
-	cur    *c11Node // shape currently installed under the swap store
+	w        *c11World
+	taps     bool
+	fresh    bool
+	cur      *c11Node                        // shape currently installed under the swap store
 	wrapLeaf func(m *c11Member) desync.Store // concurrent runs: recorder around every member
-	frames []*c11Frame
-	fails  []c11PolicyFail
-	opNo   int
+	frames   []*c11Frame
+	fails    []c11PolicyFail
+	opNo     int
 }
 
 type c11PolicyFail struct {
@@ -500,17 +500,17 @@ func (t *c11TapW) StoreChunk(c *desync.Chunk) error {
 // ---------- cases ----------
 
 type c11Case struct {
-	Members  []string `json:"members"` // content/faults/default, as sent to the oracle
-	NGroups  int      `json:"ngroups"`
-	Top      string   `json:"top"` // N=<stack> | S=<stack> | W=<stack>
-	Ops      []string `json:"ops"`
-	Impl     string   `json:"impl_results,omitempty"`
-	ImplLog  string   `json:"impl_log,omitempty"`
-	Model    string   `json:"model_results,omitempty"`
-	ModelLog string   `json:"model_log,omitempty"`
-	ImplFinal  string `json:"impl_final_contents,omitempty"`
-	ModelFinal string `json:"model_final_contents,omitempty"`
-	Fresh    bool     `json:"swap_stacks_use_fresh_members"`
+	Members    []string `json:"members"` // content/faults/default, as sent to the oracle
+	NGroups    int      `json:"ngroups"`
+	Top        string   `json:"top"` // N=<stack> | S=<stack> | W=<stack>
+	Ops        []string `json:"ops"`
+	Impl       string   `json:"impl_results,omitempty"`
+	ImplLog    string   `json:"impl_log,omitempty"`
+	Model      string   `json:"model_results,omitempty"`
+	ModelLog   string   `json:"model_log,omitempty"`
+	ImplFinal  string   `json:"impl_final_contents,omitempty"`
+	ModelFinal string   `json:"model_final_contents,omitempty"`
+	Fresh      bool     `json:"swap_stacks_use_fresh_members"`
 }
 
 func c11ParseMember(w *c11World, idx int, s string) (*c11Member, error) {
@@ -1030,12 +1030,24 @@ func runC11(a vh.Args, o *vh.Oracle, r *vh.Result) error {
 	r.Rule = "sequential case = (member contents + per-call fault schedules, chain shape of depth <= 4 incl. the CLI shapes, optional SwapStore/SwapWriteStore, 6-24 operations Get/Has/Store/Swap/Close over 6 ids); non-trivial = the calls of the case reached two or more distinct members; distinct by (chain, operations, members). concurrent case = (failover group or swap store, goroutines, yield-hook schedule seed)"
 	if a.Replay != "" {
 		var probe struct {
-			Conc string `json:"conc"`
-			Blob string `json:"blob_hex"`
+			Conc string   `json:"conc"`
+			Blob string   `json:"blob_hex"`
+			Hist []string `json:"hist"`
 		}
 		readJSON(a.Replay, &probe)
 		if probe.Conc != "" {
 			return c11ReplayConc(a, o, r)
+		}
+		if len(probe.Hist) > 0 {
+			var hc c11HistCase
+			if err := readJSON(a.Replay, &hc); err != nil {
+				return err
+			}
+			_, err := c11CheckHist(o, r, &hc, true)
+			for _, l := range hc.Observed {
+				fmt.Println(" ", l)
+			}
+			return err
 		}
 		if probe.Blob != "" {
 			var cc c11CLICase
@@ -1097,6 +1109,9 @@ func runC11(a vh.Args, o *vh.Oracle, r *vh.Result) error {
 		return err
 	}
 	if err := c11Hammer(r, rng); err != nil {
+		return err
+	}
+	if err := c11History(a, o, r, rng); err != nil {
 		return err
 	}
 	if err := c11CLI(a, o, r, rng); err != nil {
